@@ -51,7 +51,7 @@ def build(spec):
             if spec.get("block") and not acl_case.get("group_by") and len(acl.items) >= 1:
                 # an explicit block with its OWN prefix / name among the plain entries of an ungrouped ACL
                 lo = spec["block"][0] % len(acl.items)
-                chunk = acl.items[lo:lo + max(1, spec["block"][1])]
+                chunk = acl.items[lo:lo + max(0, spec["block"][1])]  # length 0: an empty placeholder block
                 blk = C.AceGroup(items=list(chunk), platform=acl.platform, group_by="== ", name="== BLOCK",
                                  note=Note(["block"]))
                 acl.items[lo:lo + len(chunk)] = [blk]
@@ -123,6 +123,14 @@ def build(spec):
             raise Invalid()
         return C.Wildcard(f"{R.int2ip(spec['b'])} {R.int2ip(spec['w'])}", platform=platform, note=note)
     raise Invalid()
+
+
+def _has_empty_block(o) -> bool:
+    """Resequencing is only defined for non-empty groups (C10's quantifier); an empty placeholder block is
+    kept out of that operation."""
+    import cisco_acl as C
+
+    return any(isinstance(x, C.AceGroup) and not x.items for x in getattr(o, "items", []) or [])
 
 
 def snap(o):
@@ -220,7 +228,7 @@ def mutate(o, mut, v: Verdict):
         o.port_nr = not o.port_nr
     elif name == "protocol_nr" and hasattr(o, "protocol_nr"):
         o.protocol_nr = not o.protocol_nr
-    elif name == "resequence" and hasattr(o, "resequence") and getattr(o, "items", None):
+    elif name == "resequence" and hasattr(o, "resequence") and getattr(o, "items", None) and not _has_empty_block(o):
         o.resequence(5, 3)
     elif name == "line":
         cls = type(o).__name__
@@ -336,7 +344,7 @@ def judge_identity(case) -> Verdict:
                 o.port_nr = not o.port_nr
             elif name == "protocol_nr" and hasattr(o, "protocol_nr"):
                 o.protocol_nr = not o.protocol_nr
-            elif name == "resequence" and hasattr(o, "resequence") and getattr(o, "items", None):
+            elif name == "resequence" and hasattr(o, "resequence") and getattr(o, "items", None) and not _has_empty_block(o):
                 o.resequence(op[1] % 50 + 1, op[2] % 9 + 1)
             elif name == "sort" and isinstance(o, (C.Acl, C.AceGroup)):
                 o.sort()
@@ -378,7 +386,7 @@ def obj_st(draw, small_acl=False):
         if kind == "acegroup":
             spec["acl"]["group_by"] = ""
         if kind == "acl" and draw(st.sampled_from([True, False, False])):
-            spec["block"] = [draw(st.integers(0, 5)), draw(st.integers(1, 3))]
+            spec["block"] = [draw(st.integers(0, 5)), draw(st.sampled_from([0, 1, 1, 2, 3]))]
         spec["input"] = draw(st.lists(st.sampled_from(["interface Eth1", "interface Eth2"]), max_size=2, unique=True))
         spec["output"] = draw(st.lists(st.sampled_from(["interface Eth3"]), max_size=1))
     elif kind == "ace":
